@@ -236,6 +236,13 @@ def rp(spec, st, sc):
     if k == "zigzag":
         v = varint_decode(st)
         return (v >> 1) if not v & 1 else -((v >> 1) + 1)
+    if k == "bint":
+        n = evaluate(spec[1], sc)
+        if not isinstance(n, int):
+            raise ForeignError("non-integer length")
+        if n <= 0:
+            raise Reject("non-positive-length")
+        return int_decode(st.read(n), spec[2], bool(evaluate(spec[3], sc)))
     if k == "bytes":
         return st.read(_len(spec[1], sc))
     if k == "gbytes":
@@ -733,6 +740,15 @@ def rb(spec, v, sc):
         if not isinstance(v, int) or isinstance(v, bool):
             raise Reject("not-an-integer")
         return varint_encode(2 * v if v >= 0 else -2 * v - 1), v
+    if k == "bint":
+        if not isinstance(v, int) or isinstance(v, bool):
+            raise Reject("not-an-integer") if not isinstance(v, bool) else ForeignError("bool given to an integer field")
+        n = evaluate(spec[1], sc)
+        if not isinstance(n, int):
+            raise ForeignError("non-integer length")
+        if n <= 0:
+            raise Reject("non-positive-length")
+        return int_encode(v, n, spec[2], bool(evaluate(spec[3], sc))), v
     if k == "bytes":
         n = evaluate(spec[1], sc)
         if not isinstance(v, (bytes, bytearray)):
